@@ -11,3 +11,7 @@ check("C10", "exploration", "runtime monitoring: differential oracle (reference 
 check("C06", "exploration", "runtime monitoring: BLS verification of every returned signature against an independently merkleised signing root; concurrent request storm under the Go race detector",
       "Tens of thousands of requests of all ten signing kinds (random content, epochs across domain boundaries, batches mixing ordinary and distributed accounts in any order) against one long-lived real signer; each signature verified with real BLS keys against a reference SSZ merkleisation; plus overlapping local-signing calls under -race. Held on what was generated.",
       "herumi BLS verification and sha256 are trusted; harness accounts play the remote signer (they sign what they are asked, the oracle decides whether that was the right thing).")
+check("C02", "exploration", "runtime monitoring: per-job trace oracle over API results, invocations and hook observations under boundary stress and forced interleavings; porcupine linearizability check of the job table; Go race detector",
+      "Thousands of real scheduler jobs per run in 11 stress modes and 7 orders forced at hook points inside the scheduler, each judged by exactly-once trace rules with the goroutine exit as a definite observation; periodic jobs monitored for overlap and continued ticking; concurrent table histories checked against a sequential model. Interleavings are sampled and forced, not enumerated.",
+      "Hook points (build tag verif) only observe and delay; real timers are used, so verdicts that need 'the time has passed' wait for the goroutine's exit with an 8 s watchdog.")
+echo 626fe30 > /dev/null
